@@ -3,8 +3,7 @@
    it was created with) and every value conforms to the declared type (spec_conforms: nil always, the
    empty slice exactly for slice types, otherwise the type equals the declared one; an instance value is
    typed by the definition it was created with, slices and pointers by element name).
-   clean st o excludes exactly the situations of the listed findings: a key that is not a symbol
-   (nonsymbol-key), an instance value created under another definition than its name has now / derefSet
+   clean st o excludes exactly the situations of the listed findings: an instance value created under another definition than its name has now / derefSet
    between two definitions (instance-type-by-name), a target without definition (late-adoption), and
    re-binding an existing variable.  Each exclusion is shown necessary by a refuted statement below. *)
 From Coq Require Import List ZArith Bool.
@@ -82,23 +81,12 @@ Print Assumptions C17_history_refines.
 Definition int64_t := TEBase BInt64.
 Definition string_t := TEBase BString.
 
-(* (struct S [(field f0: int64)]) (def v0 (S f0:1)) (hset v0 5 6) *)
-Theorem C17_nonsymbol_key_refuted : exists h, invb (run init_state h) = false.
-Proof.
-  exists [Declare 0 [(0, int64_t)]; Construct 0 0 [(KSym 0, VInt 1)]; Write RHset 0 (KInt 5) (VInt 6)].
-  vm_compute. reflexivity.
-Qed.
-Print Assumptions C17_nonsymbol_key_refuted.
-
 (* old instance accepted in a field declared with the new definition of the same name *)
-Theorem C17_stale_instance_refuted : exists h,
-  (forall o, In o h -> match o with Write _ _ k _ => key_clean k = true | _ => True end) /\
-  invb (run init_state h) = false.
+Theorem C17_stale_instance_refuted : exists h, invb (run init_state h) = false.
 Proof.
   exists [Declare 0 [(0, int64_t)]; Construct 0 0 [(KSym 0, VInt 1)]; Declare 0 [(0, string_t)];
           Declare 1 [(0, TEStruct 0)]; Construct 1 1 [(KSym 0, VInst 0)]].
-  split; [|vm_compute; reflexivity].
-  intros o H. repeat (destruct H as [<-|H]; [simpl; auto|]). destruct H.
+  vm_compute. reflexivity.
 Qed.
 Print Assumptions C17_stale_instance_refuted.
 
@@ -165,6 +153,15 @@ Example demo_fields :
   | _, _ => (None, None)
   end = (Some (VInt 6), Some (VStr 1)).
 Proof. vm_compute. reflexivity. Qed.
+
+(* a key that is not a symbol is rejected for an instance of a declared struct (since 01960ee), on every route *)
+Example nonsymbol_key_rejected :
+  let h := [Declare 0 [(0, int64_t)]; Construct 0 0 [(KSym 0, VInt 1)]] in
+  fst (step (run init_state h) (Write RHset 0 (KInt 5) (VInt 6))) = ERR /\
+  fst (step (run init_state h) (Write RIdx 0 (KStr 1) (VInt 6))) = ERR /\
+  fst (step (run init_state h) (Construct 1 0 [(KInt 5, VInt 6)])) = ERR /\
+  clean (run init_state h) (Write RHset 0 (KInt 5) (VInt 6)) = true.
+Proof. vm_compute. repeat split; reflexivity. Qed.
 
 (* derefSet through a pointer made BEFORE a redeclaration is rejected (the pointed-to type is the old object),
    and index-style writes (key wrapped in a one-element array) are checked like plain symbol keys *)
